@@ -140,14 +140,15 @@ def index_spaces(rep, M, rid):
                           M.where(SA + "." + name))
     # _get_primitive_system: one mask, Conv-indexed, applied to positions, numbers, letters and equivalence
     r, env = run("_get_primitive_system")
-    mask = env.get("inside_mask")
     f = meth["_get_primitive_system"]
+    NM, _c0 = _prim_names(M, f, SA + "._get_primitive_system")
     sliced = [(norm(s.targets[0]), norm(s.value.slice)) for s in ast.walk(f) if isinstance(s, ast.Assign)
               and isinstance(s.value, ast.Subscript) and isinstance(s.value.slice, ast.Name)]
-    per_atom = {"prim_pos", "prim_num", "prim_wyckoff", "prim_equivalent"}
+    per_atom = {NM["POS"], NM["NUM"], NM.get("WYC"), NM.get("EQV")}
     masks = {m for t, m in sliced if t in per_atom}
     targets = {t for t, _ in sliced}
-    if mask == ("map", "P", "C") and len(masks) == 1 and {"prim_pos", "prim_num", "prim_wyckoff", "prim_equivalent"} <= targets:
+    mask = env.get(next(iter(masks))) if len(masks) == 1 else None
+    if mask == ("map", "P", "C") and len(masks) == 1 and None not in per_atom and per_atom <= targets:
         rep.ok(rid, "_get_primitive_system: positions, numbers, letters and equivalence sliced by one section primitive -> conventional")
     elif mask != ("map", "P", "C"):
         rep.violation(rid, "_get_primitive_system: atom selection", f"the selection mask has index type {mask}; required a section "
@@ -285,6 +286,32 @@ def det3(m):
             + m[0][2] * (m[1][0] * m[2][1] - m[1][1] * m[2][0]))
 
 
+def _prim_names(M, fn, fq):
+    """structural names in _get_primitive_system: locals are identified by their role, not by their spelling"""
+    ctor = [c for c in ast.walk(fn) if isinstance(c, ast.Call) and M.resolve(fq, c.func) == ("ext", "ase.Atoms")]
+    if not ctor:
+        raise AnalysisError("_get_primitive_system: construction of the primitive Atoms not found")
+    kw = {k.arg: k.value for k in ctor[0].keywords}
+    names = {}
+    for role, key in (("POS", "scaled_positions"), ("CELL", "cell"), ("NUM", "symbols")):
+        v = kw.get(key, kw.get("numbers") if key == "symbols" else None)
+        if not isinstance(v, ast.Name):
+            raise AnalysisError(f"_get_primitive_system: Atoms({key}=...) is not a local")
+        names[role] = v.id
+    rets = [r for r in fn.body if isinstance(r, ast.Return) and isinstance(r.value, ast.Tuple) and len(r.value.elts) == 3]
+    if rets and all(isinstance(e, ast.Name) for e in rets[-1].value.elts):
+        names["SYS"], names["WYC"], names["EQV"] = [e.id for e in rets[-1].value.elts]
+    dicts = [nd for nd in ast.walk(fn) if isinstance(nd, ast.Assign) and isinstance(nd.value, ast.Dict) and nd.value.keys and all(
+        isinstance(k, ast.Constant) and isinstance(k.value, str) and len(k.value) == 1 for k in nd.value.keys)]
+    if dicts:
+        names["TABLE"] = norm(dicts[-1].targets[0])
+        look = [nd for nd in ast.walk(fn) if isinstance(nd, ast.Assign) and isinstance(nd.value, ast.Subscript) and norm(nd.value.value) == names["TABLE"]]
+        if look:
+            names["T"] = norm(look[0].targets[0])
+            names["CENTRING"] = norm(look[0].value.slice)
+    return names, ctor[0]
+
+
 def centring_matrices(rep, M, T, rid):
     fq = SA + "._get_primitive_system"
     fn = M.func(fq)
@@ -301,45 +328,54 @@ def centring_matrices(rep, M, T, rid):
     for s in ast.walk(fn):
         if isinstance(s, ast.Assign) and isinstance(s.targets[0], ast.Name):
             env.setdefault(s.targets[0].id, s.value)
-    pc = env.get("prim_cell")
+    NM, _ctor = _prim_names(M, fn, fq)
+    pc = env.get(NM["CELL"])
     if pc is None:
-        raise AnalysisError("_get_primitive_system: prim_cell assignment not found")
-    f = linalg.nf(pc, resolver(M, fq), {k: v for k, v in env.items() if k in ("conv_cell",) and False})
-    conv = "conv_cell"
-    if f == [("transform", False, True), (conv, False, False)]:
+        raise AnalysisError("_get_primitive_system: assignment of the primitive cell not found")
+    expand = {k: v for k, v in env.items() if k not in (NM.get("T"),)}
+    f = linalg.nf(pc, resolver(M, fq), expand)
+
+    def is_cell(x):
+        return x[0].endswith(".get_cell()") and not x[1] and not x[2]
+    tname = NM.get("T")
+    if f is not None and len(f) == 2 and f[0][0] == tname and not f[0][1] and f[0][2] and is_cell(f[1]):
         use_columns = True
-    elif f == [("transform", False, False), (conv, False, False)]:
+    elif f is not None and len(f) == 2 and f[0][0] == tname and not f[0][1] and not f[0][2] and is_cell(f[1]):
         use_columns = False
     else:
-        raise AnalysisError(f"_get_primitive_system: prim_cell = {linalg.show(f)} not modelled")
-    rep.note(f"prim_cell = {linalg.show(f)}: primitive vectors are the {'columns' if use_columns else 'rows'} of the tabulated matrix")
+        raise AnalysisError(f"_get_primitive_system: primitive cell = {linalg.show(f)} not modelled")
+    rep.note(f"primitive cell = {'T^T' if use_columns else 'T'} . conv_cell: primitive vectors are the {'columns' if use_columns else 'rows'} of the tabulated matrix")
     W = T["WYCKOFF_SETS"]
     # P short-circuit
     pret = [s for s in ast.walk(fn) if isinstance(s, ast.If) and isinstance(s.test, ast.Compare)
             and isinstance(s.test.comparators[0], ast.Constant) and s.test.comparators[0].value == "P"
             and any(isinstance(x, ast.Return) for x in s.body)]
+    CEN = NM.get("CENTRING")
+    if CEN is None:
+        raise AnalysisError("_get_primitive_system: lookup of the centring matrix not found")
+
     def code_key(c):
         """fold the statements between `centring = symbol[0]` and the matrix lookup for centring letter c"""
         cur = c
         started = False
         for st in fn.body:
-            if isinstance(st, ast.Assign) and norm(st.targets[0]) == "centring" and isinstance(st.value, ast.Subscript):
+            if isinstance(st, ast.Assign) and norm(st.targets[0]) == CEN and isinstance(st.value, ast.Subscript):
                 started = True
                 continue
             if not started:
                 continue
             if isinstance(st, ast.Assign) and isinstance(st.value, ast.Subscript) and norm(st.value.value) == ptname:
                 return cur
-            if isinstance(st, ast.If) and {x.id for x in ast.walk(st.test) if isinstance(x, ast.Name)} <= {"centring"}:
+            if isinstance(st, ast.If) and {x.id for x in ast.walk(st.test) if isinstance(x, ast.Name)} <= {CEN}:
                 from .constfold import Folder
                 F2 = Folder(what="_get_primitive_system centring dispatch")
-                blk = st.body if F2.ev(st.test, {"centring": cur}) else st.orelse
+                blk = st.body if F2.ev(st.test, {CEN: cur}) else st.orelse
                 for s3 in blk:
                     if isinstance(s3, ast.Return):
                         return None
-                    if isinstance(s3, ast.Assign) and norm(s3.targets[0]) == "centring":
-                        cur = F2.ev(s3.value, {"centring": cur})
-            elif isinstance(st, ast.Assign) and norm(st.targets[0]) == "centring":
+                    if isinstance(s3, ast.Assign) and norm(s3.targets[0]) == CEN:
+                        cur = F2.ev(s3.value, {CEN: cur})
+            elif isinstance(st, ast.Assign) and norm(st.targets[0]) == CEN:
                 raise AnalysisError("_get_primitive_system: centring reassigned from a non-constant")
         return cur
     for g in range(1, 231):
@@ -393,35 +429,35 @@ def primitive_conversion(rep, M, rid):
     for s in ast.walk(fn):
         if isinstance(s, ast.Assign) and isinstance(s.targets[0], ast.Name):
             env.setdefault(s.targets[0].id, s.value)
-    keep = {k: v for k, v in env.items() if k in ("prim_cell_inv",)}
-    pp = env.get("prim_pos")
-    f = linalg.nf(pp, resolver(M, fq), keep)
-    want = [("conv_pos", False, False), ("prim_cell", True, False)]
-    if f == want:
-        rep.ok(rid, f"fractional primitive positions = {linalg.show(f)}")
+    NM, ctor0 = _prim_names(M, fn, fq)
+    res = resolver(M, fq)
+    expand = {k: v for k, v in env.items() if k not in (NM.get("T"), NM["POS"])}
+    pp = env.get(NM["POS"])
+    f = linalg.nf(pp, res, expand)
+    cf = linalg.nf(env.get(NM["CELL"]), res, expand)
+    ok_f = f is not None and cf is not None and len(f) >= 2 and f[0][0].endswith(".get_positions()") and not f[0][1] and not f[0][2] and f[1:] == linalg.I(cf)
+    if ok_f:
+        rep.ok(rid, "fractional primitive positions = cartesian positions . (primitive cell)^-1")
     else:
-        rep.violation(rid, "_get_primitive_system: prim_pos", f"= {linalg.show(f)}; row-vector convention requires {linalg.show(want)}",
-                      M.where(fq, pp))
-    # conv_pos are cartesian positions of the conventional system; prim_sys built with scaled_positions & prim_cell & wrap
-    cp = env.get("conv_pos")
-    if cp is not None and norm(cp).endswith("get_positions()"):
-        rep.ok(rid, "conv_pos = cartesian positions of the conventional system")
+        rep.violation(rid, "_get_primitive_system: fractional positions", f"= {linalg.show(f)}; row-vector convention requires <system>.get_positions() . "
+                      f"({linalg.show(cf)})^-1", M.where(fq, pp))
+    src_sys = f[0][0][:-len(".get_positions()")] if f and f[0][0].endswith(".get_positions()") else None
+    if src_sys is not None and cf is not None and cf[-1][0] == src_sys + ".get_cell()":
+        rep.ok(rid, "cartesian positions and cell are those of the same conventional system")
     else:
-        rep.violation(rid, "_get_primitive_system: conv_pos", f"`{norm(cp) if cp else None}` is not get_positions() (cartesian)", M.where(fq))
-    ctor = [c for c in ast.walk(fn) if isinstance(c, ast.Call) and M.resolve(fq, c.func) == ("ext", "ase.Atoms")]
-    if ctor:
-        kw = {k.arg: norm(k.value) for k in ctor[0].keywords}
-        if kw.get("scaled_positions") == "prim_pos" and kw.get("cell") == "prim_cell" and kw.get("symbols", kw.get("numbers")) == "prim_num":
-            rep.ok(rid, "primitive system = Atoms(scaled_positions=prim_pos, cell=prim_cell, symbols=prim_num)")
-        else:
-            rep.violation(rid, "_get_primitive_system: Atoms(...)", f"built from {kw}", M.where(fq, ctor[0]))
+        rep.violation(rid, "_get_primitive_system: source of positions / cell", f"positions from `{src_sys}`, cell from `{cf[-1][0] if cf else None}`", M.where(fq))
+    kwn = {k.arg: norm(k.value) for k in ctor0.keywords}
+    if kwn.get("scaled_positions") and kwn.get("cell") and (kwn.get("symbols") or kwn.get("numbers")):
+        rep.ok(rid, "primitive system = Atoms(scaled_positions=<fractional positions>, cell=<primitive cell>, symbols=<numbers>)")
+    else:
+        rep.violation(rid, "_get_primitive_system: Atoms(...)", f"built from {kwn}", M.where(fq, ctor0))
     wraps = [c for c in ast.walk(fn) if isinstance(c, ast.Call) and isinstance(c.func, ast.Attribute) and c.func.attr == "wrap"]
     if wraps:
         rep.ok(rid, "primitive system wrapped into its cell")
     else:
         rep.violation(rid, "_get_primitive_system: wrap", "atoms of the primitive system are not wrapped into the primitive cell", M.where(fq))
     # centring letter from the international short symbol
-    cen = env.get("centring")
+    cen = env.get(NM.get("CENTRING"))
     if cen is not None and isinstance(cen, ast.Subscript) and isinstance(cen.slice, ast.Constant) and cen.slice.value == 0:
         rep.ok(rid, "centring = first character of the international short symbol")
     else:
